@@ -332,7 +332,7 @@ def apply_uf(interp, fv, args, node):
     ft = fv.data["type"]
     f = fv.data["fun"]
     ts = []
-    for a, at in zip(args, ft.arg_types):
+    for a, at in zip(args, list(ft.arg_types) + list(ft.kw.values())):
         if isinstance(at, T.StrT) and isinstance(a, VObj) and a.tag == "anyelem":
             ts.append(a.sterm)      # only reached after the element was checked to be a string
             continue
